@@ -114,6 +114,9 @@ def run_sort_case(job):
 
                 reader = GAF(out)
                 for ctg, (a, b) in g.items():
+                    if not isinstance(ctg, str):      # the index is keyed by contig NAMES; anything else is reported as such, typed
+                        ctg = f"<{type(ctg).__name__}:{ctg}>"
+                    a, b = (x if isinstance(x, int) else -1 for x in (a, b))
                     c["gsi"].append([ctg, starts.get(a, 0), starts.get(b, 0)])
                     for off in (a, b):
                         k = starts.get(off, 0)
